@@ -74,6 +74,25 @@ class C07(Prop):
             # a past operator above the look-ahead: after pastify() it starts when its operand does
             o = rng.choice(['historically', 'once', 'historically', 'once', 'prev', 's_prev'])
             f = lang.N(o, f) if (o in ('prev', 's_prev') or rng.random() < 0.6) else lang.N(o, f, ivl=(0, rng.randint(1, 3)))
+        if kind == 'dt_on_pastified' and rng.random() < 0.2:
+            # a bounded past operator beside a sibling that looks further ahead: pastify() has to delay the past
+            # operator by the sibling's horizon (a delay, not a shifted window - for `since` the two differ)
+            N, V, C = lang.N, lang.V, lang.C
+            vs = list(lang.VAR_POOL[:3])
+            pr = lambda: N(rng.choice(['geq', 'leq', 'gt', 'lt']), V(rng.choice(vs)), C(rng.choice([0.0, 1.0, -1.0, 0.5])))
+            a = rng.randint(0, 2)
+            iv = (a, a + rng.randint(0, 3))
+            o = rng.choice(['since', 'since', 'since', 'once', 'historically'])
+            past = N('since', pr(), pr(), ivl=rng.choice([iv, iv, None])) if o == 'since' else N(o, pr(), ivl=iv)
+            b = rng.randint(0, 2)
+            fut = N(rng.choice(['eventually', 'always']), pr(), ivl=(b, b + rng.randint(1, 3)))
+            if rng.random() < 0.3:
+                fut = N('next', fut)
+            f = N(rng.choice(['and', 'or', 'implies']), *rng.sample([past, fut], 2))
+            if rng.random() < 0.3:
+                f = N(rng.choice(['always', 'eventually']), f, ivl=(0, rng.randint(1, 2)))
+            if rng.random() < 0.2:
+                f = N('not', f)
         wide = kind in ('dt_off', 'dt_on') and rng.random() < 0.04
         if wide:
             # windows of 33..130 samples on traces of 100..170 samples
